@@ -95,7 +95,7 @@ def reversibility(ex, reg, src, name, m, autonomous=True):
 def run(tier):
     R = common.Run(PID, "proof", tier)
     R.assume("A1", "A8")
-    R.assume("separable systems in the form dq/dt = f_q(p), dp/dt = f_p(t, q) (time-dependent forces allowed, drift time-independent) with the default/any 0-1 kick mask; mask construction is a bounded native clause")
+    R.assume("separable systems in the form dq/dt = f_q(p), dp/dt = f_p(t, q) (time-dependent forces allowed, drift time-independent) with the default/any 0-1 kick mask (the masks are proved to be complementary 0/1 vectors of the state's length from the real constructor; the step is verified on the two-block view they induce)")
     R.assume("bounded energy error over long runs is a corollary of symplecticity via backward error analysis (A8), not checked")
     R.trust("exact Fraction arithmetic", "pyvc executor LinComb/BlockVec domain", "tables dumped from the imported classes")
     reg = solver.Registry()
@@ -134,6 +134,14 @@ def run(tier):
                     reversibility(ex, reg, src, n, m, autonomous=auto)
             except Unsupported as e:
                 reg.undecided(pre + "reversibility", "unsupported", "executor", str(e))
+            # the masks the step multiplies with: complementary 0/1 vectors for a state of any length, built by the real constructor
+            # (default: second half kicks; a caller's mask is taken as given) -- "all kick masks" of the property's quantifier
+            try:
+                from . import ctor
+                R.under_contract(ctor.check_symplectic_init(reg, src, PID, n, m))
+                R.under_contract(src.func(FT, "TableauIntegrator.__init__"))
+            except Unsupported as e:
+                reg.undecided(pre + "mask-construction", "unsupported", "executor", str(e))
     # ---- implicit symplectic classes: symplectic "up to solver tolerance" needs that an unconverged stage solve is never
     #      handed back as an accepted step (same obligation as C02, on the real RungeKuttaIntegrator.__call__)
     try:
